@@ -190,6 +190,17 @@ class C13(TraceCheck):
                     try:
                         if n == 1:
                             fa[0] = "x"
+                        elif m % 3 == 0 and fa.chunks and any(len(c.s) for c in fa.chunks):
+                            # the caller edits the mapping shared_atts handed out ("same style without the background");
+                            # either that raises or it is the caller's own copy - the value itself stays as it was
+                            try:
+                                d = fa.shared_atts
+                                d.pop("bg", None), d.pop("fg", None), d.pop("bold", None)
+                                d.setdefault("underline", True)
+                                d.clear()
+                            except Exception:  # noqa
+                                pass
+                            rec["raised"] = 1
                         elif n == 2:
                             if fa.chunks:
                                 fa.chunks[0].atts["fg"] = 31
